@@ -42,7 +42,11 @@ def work_objects(bins, seed, n, ascii_only):
     samples = []
     for _ in range(n):
         schema = objgen.rand_schema(rng, ascii_only=ascii_only)
-        v = objgen.rand_vars(rng, ascii_only=ascii_only)
+        # one object in eight: numbers up to u64 in every variable, commit times up to the year 99999
+        wide = rng.random() < 0.125
+        v = objgen.rand_vars(rng, ascii_only=ascii_only, bound=2 ** 64 if wide else 2 ** 32, ts_max=3093527980799 if wide else 7258118399)
+        if wide and v.get("distance") is not None and rng.random() < 0.5:
+            v["distance"] = rng.choice([2 ** 32, 2 ** 53 + 1, 2 ** 64 - 1])
         text = ron.zerv_to_ron(schema, v)
         rep = pr.call(dict(op="zerv_obj", ron=text))
         stats["objects"] += 1
